@@ -69,6 +69,22 @@ fn tok_rt<V: paseto_core::version::Version, P: paseto_core::version::Purpose>(fk
     }
 }
 
+fn tokc_rt<V: paseto_core::version::Version, P: paseto_core::version::Purpose>(fk: &str, s: &str) -> R {
+    use crate::be::RawC;
+    match fk {
+        "unit" => {
+            let t = SealedToken::<V, P, RawC, ()>::from_str(s).map_err(e)?;
+            Ok(format!("{} -", hex(t.to_string().as_bytes())))
+        }
+        "vec" => {
+            let t = SealedToken::<V, P, RawC, Vec<u8>>::from_str(s).map_err(e)?;
+            let f = t.unverified_footer().clone();
+            Ok(format!("{} {}", hex(t.to_string().as_bytes()), hex(&f)))
+        }
+        _ => Err("bad-op".into()),
+    }
+}
+
 fn sd_tok_rt<V: paseto_core::version::Version, P: paseto_core::version::Purpose>(fk: &str, s: &str) -> R {
     let v = serde_json::Value::String(s.to_string());
     match fk {
@@ -169,6 +185,11 @@ pub fn exec_inner(line: &str) -> R {
             let (b, p, fk, s) = (be(1)?, kd(2)?, *t.get(3).ok_or_else(bad)?, utf8(hx(4)?)?);
             let sd = t[0].starts_with("sd.");
             with_v!(b, V => with_purpose!(p, P => if sd { sd_tok_rt::<V, P>(fk, &s) } else { tok_rt::<V, P>(fk, &s) }, else Err(bad())))
+        }
+        // the same text round trip for a payload type whose `SUFFIX` is "c"
+        "tokc.rt" => {
+            let (b, p, fk, s) = (be(1)?, kd(2)?, *t.get(3).ok_or_else(bad)?, utf8(hx(4)?)?);
+            with_v!(b, V => with_purpose!(p, P => tokc_rt::<V, P>(fk, &s), else Err(bad())))
         }
         "txt.rt" | "sd.txt.rt" => {
             let (b, form, k, s) = (be(1)?, *t.get(2).ok_or_else(bad)?, kd(3)?, utf8(hx(4)?)?);
